@@ -74,7 +74,7 @@ def step (s : JS) (line : String) : IO JS := do
   match words line with
   | "adv-try" :: ws =>
     let s ← match s.pending with
-      | some c => emit s true s!"oracle-fail C17 what=process_died_or_no_verdict_for_case case={c.replace " " "~"}"
+      | some c => emit s true s!"oracle-fail {if c.startsWith "extend" || c.startsWith "iterpanic" then "C17+C04" else "C17"} what=process_died_or_no_verdict_for_case case={c.replace " " "~"}"
       | none => pure s
     return { s with pending := some (String.intercalate " " ws) }
   | ["adv-neighbour-overwritten"] =>
@@ -86,8 +86,11 @@ def step (s : JS) (line : String) : IO JS := do
     let caseS := String.intercalate "~" case
     let s := { s with cases := s.cases + 1, pending := none,
                       okN := if outcome == "panic" then s.okN else s.okN + 1, panicN := if outcome == "panic" then s.panicN + 1 else s.panicN }
+    -- misbehaving iterators into Extend / FromIterator for BytesMut: an allocator violation there is also "a BytesMut's region
+    -- stays inside its allocation" (C04)
+    let tag := if (case.headD "").startsWith "extend" || (case.headD "").startsWith "iterpanic" then "C17+C04" else "C17"
     let s ← if kvOf rest "ledger" != some "ok" then
-        emit s true s!"oracle-fail C17 what=allocator_oracle_violation_({(kvOf rest "ledger").getD "?"}) case={caseS}" else pure s
+        emit s true s!"oracle-fail {tag} what=allocator_oracle_violation_({(kvOf rest "ledger").getD "?"}) case={caseS}" else pure s
     let s ← if outcome.startsWith "OOB-READ" then
         emit s true s!"oracle-fail C17 what=bytes_from_outside_the_slices_the_owner_answered_with_reached_the_caller_(out-of-bounds_read) case={caseS}" else pure s
     let s ← if kvOf rest "leak" != some "0" then
@@ -131,7 +134,7 @@ def run : IO UInt32 := do
   let stdin ← IO.getStdin
   let s ← foldLines stdin ({} : JS) step
   let s ← match s.pending with
-    | some c => emit s true s!"oracle-fail C17 what=process_died_or_no_verdict_for_case case={c.replace " " "~"}"
+    | some c => emit s true s!"oracle-fail {if c.startsWith "extend" || c.startsWith "iterpanic" then "C17+C04" else "C17"} what=process_died_or_no_verdict_for_case case={c.replace " " "~"}"
     | none => pure s
   let s ← if !s.ended then emit s false "bad-trace ADV stream-ended-without-advend" else pure s
   for (cat, n) in s.printed do
